@@ -716,6 +716,56 @@ func extractAll() {
 		}
 		addBool("sioClientFlushUnderLock", ok, "client_socket.go")
 	}
+	// ---- the client finishes an upgrade on a goroutine of its own (not on the new transport's reader, which has to notice a close
+	// of that transport while finishUpgradeTo waits for transportMu) and sends UPGRADE before it releases transportMu
+	{
+		rel := "engine.io/client_socket.go"
+		async := false
+		if fd := findFunc(load(rel), "clientSocket", "tryUpgradeTo"); fd != nil {
+			ast.Inspect(fd, func(x ast.Node) bool {
+				if g, ok := x.(*ast.GoStmt); ok {
+					if se, ok := g.Call.Fun.(*ast.SelectorExpr); ok && se.Sel.Name == "finishUpgradeTo" {
+						async = true
+					}
+				}
+				return true
+			})
+		}
+		addBool("eioClientFinishUpgradeAsync", async, rel)
+		underLock := false
+		if fd := findFunc(load(rel), "clientSocket", "finishUpgradeTo"); fd != nil {
+			var lockPos, sendPos token.Pos
+			deferred, explicitUnlockBeforeSend := false, false
+			ast.Inspect(fd, func(x ast.Node) bool {
+				switch n := x.(type) {
+				case *ast.DeferStmt:
+					if se, ok := n.Call.Fun.(*ast.SelectorExpr); ok && se.Sel.Name == "Unlock" {
+						deferred = true
+					}
+					return false
+				case *ast.FuncLit:
+					return false
+				case *ast.CallExpr:
+					if se, ok := n.Fun.(*ast.SelectorExpr); ok {
+						if inner, ok := se.X.(*ast.SelectorExpr); ok && inner.Sel.Name == "transportMu" {
+							if se.Sel.Name == "Lock" && lockPos == token.NoPos {
+								lockPos = n.Pos()
+							}
+							if se.Sel.Name == "Unlock" && sendPos == token.NoPos {
+								explicitUnlockBeforeSend = true
+							}
+						}
+						if id, ok := se.X.(*ast.Ident); ok && id.Name == "t" && se.Sel.Name == "Send" && sendPos == token.NoPos {
+							sendPos = n.Pos()
+						}
+					}
+				}
+				return true
+			})
+			underLock = lockPos != token.NoPos && sendPos > lockPos && deferred && !explicitUnlockBeforeSend
+		}
+		addBool("eioClientUpgradeSentUnderLock", underLock, rel)
+	}
 	// ---- Socket.IO packet types
 	{
 		p := "parser/packet.go"
